@@ -24,7 +24,8 @@ MS = 1_000_000
 # ----------------------------------------------------------------------------- scenarios
 def fmt(sc):
     ev = ";".join(":".join(str(x) for x in e) for e in sc["ev"]) or "-"
-    return (f"sc sched={sc['sched']} ping={sc['ping']} pong={sc['pong']} stale={sc['stale']} ecd={sc['ecd']} "
+    pre = ("uni=1 " if sc.get("uni") else "") + ("och=0 " if not sc.get("och", 1) else "")
+    return (f"sc {pre}sched={sc['sched']} ping={sc['ping']} pong={sc['pong']} stale={sc['stale']} ecd={sc['ecd']} "
             f"escd={sc['escd']} pres={sc['pres']} csr={sc['csr']} rh={sc['rh']} srh={sc['srh']} "
             f"rhr={','.join(sc['rhr']) or '-'} srhr={','.join(sc['srhr']) or '-'} "
             f"pp={','.join(sc['pp']) or '-'} ppd={sc['ppd']} ev={ev} end={sc['end']}")
@@ -38,7 +39,7 @@ def parse(op):
         for w in kv["ev"].split(";"):
             p = w.split(":")
             evs.append([int(p[0])] + p[1:])
-    return {"sched": int(kv["sched"]), "ping": int(kv["ping"]), "pong": int(kv["pong"]), "stale": int(kv["stale"]),
+    return {"uni": int(kv.get("uni", "0")), "och": int(kv.get("och", "1")), "sched": int(kv["sched"]), "ping": int(kv["ping"]), "pong": int(kv["pong"]), "stale": int(kv["stale"]),
             "ecd": int(kv["ecd"]), "escd": int(kv["escd"]), "pres": int(kv["pres"]), "csr": int(kv["csr"]),
             "rh": int(kv["rh"]), "srh": int(kv["srh"]), "rhr": lst(kv["rhr"]), "srhr": lst(kv["srhr"]),
             "pp": lst(kv.get("pp", "-")), "ppd": kv.get("ppd", "-"), "ev": evs, "end": int(kv["end"])}
@@ -54,6 +55,10 @@ def eff(ms, default_s):
 def gen(rng):
     sc = {"sched": rng.randint(0, 1), "csr": rng.randint(0, 1), "rh": 1 if rng.random() < 0.7 else 0,
           "srh": 1 if rng.random() < 0.7 else 0}
+    sc["uni"] = 1 if rng.random() < 0.15 else 0
+    sc["och"] = 0 if rng.random() < (0.5 if sc["uni"] else 0.15) else 1
+    if not sc["och"]:
+        sc["csr"] = 0                      # without a ConnectingHandler there is no client-side refresh
     sc["ping"] = rng.choice([1000, 1000, 2000, 700, 1500, -1])
     r = rng.random()
     if r < 0.08:
@@ -91,7 +96,13 @@ def gen(rng):
                  for _ in range(rng.randint(0, 3))]
     sc["srhr"] = [rng.choice(["2", "3", "x", "e", "-1", "0"]) for _ in range(rng.randint(0, 2))]
     nsub, server_sub_used = 0, False
-    while connected and t < horizon:
+    if sc["uni"]:
+        sc["pp"], sc["ppd"] = [], "-"      # a unidirectional client cannot send pongs (nor any other command)
+    while connected and sc["uni"] and t < horizon:
+        t += rng.choice([370, 905, 1410, 2230, 3100])
+        if rng.random() < 0.5:
+            evs.append([t, "srefresh", rng.choice(["2", "3", "5", "4", "0"]) if rng.random() < 0.9 else rng.choice(["-1", "x"])])
+    while connected and not sc["uni"] and t < horizon:
         t += rng.choice([130, 370, 610, 905, 1410, 2230])
         r = rng.random()
         if r < 0.30:
@@ -241,8 +252,11 @@ def oracle(op, out):
                 return (f"armed timer {arm} is not the earliest pending deadline {m} of {pend}",
                         dict(base, kind="timer-not-min", cause=cause))
 
+    if sc["uni"] and code == 3012:
+        return (f"unidirectional connection (it cannot send pongs) closed NoPong at {t_disc}",
+                dict(base, kind="nopong-unidirectional", och=sc["och"]))
     # ---- (B) no pong within the timeout ⇒ NoPong at the pong deadline; a pong in time ⇒ survives
-    if T > 0 and I > 0 and T < I:          # "PongTimeout must be less than PingInterval" (config.go)
+    if T > 0 and I > 0 and T < I and not sc["uni"]:   # "PongTimeout must be less than PingInterval" (config.go)
         for pt in pings:
             dl = pt + T
             if dl > end or dl > open_until:
@@ -276,7 +290,7 @@ def oracle(op, out):
         k = e.split(":")
         if k[0] == "connected":
             ce = [int(ev[2]) for ev in at(t, "connect")]
-            g = ecd if sc["csr"] else 0
+            g = ecd if (sc["csr"] and sc["och"]) else 0
             stamp = (t // NS + ce[0], g, g, "connect") if ce and ce[0] else None
         elif k[0] == "rrefresh":
             if k[1] == "1":
@@ -528,6 +542,7 @@ def run(ctx):
                 continue
             ctx.count("ev:" + (e if k in ("disc", "err") else k))
         ctx.count(f"mode:csr={sc['csr']},rh={sc['rh']},sched={sc['sched']}")
+        ctx.count(f"transport:uni={sc['uni']},connecting-handler={sc['och']}")
         r = judge(op, out)
         if r:
             msg, sig = r
